@@ -104,6 +104,9 @@ func ParseConfigFile(filepath string) (Config, base.LogSchema, ConfigStats, erro
 		return conf, schema, stats, err
 	}
 
+	if len(conf.OutputBuffersPairs) == 0 {
+		return conf, schema, stats, fmt.Errorf("outputBufferPairs is empty")
+	}
 	nameDuplicationCheckMap := make(map[string]struct{}, len(conf.OutputBuffersPairs))
 	for _, pair := range conf.OutputBuffersPairs {
 		if _, ok := nameDuplicationCheckMap[pair.Name]; ok {
